@@ -5,6 +5,7 @@ package main
 
 import (
 	"fmt"
+	"os"
 	"strings"
 	"sync"
 	"time"
@@ -218,6 +219,15 @@ func (c *Ctx) mainCheck(extra *Term, timeout time.Duration, want []*Term) (SatRe
 // Check decides satisfiability of pc ∧ extra. want (optional) are terms whose model values are
 // returned on sat.
 func (c *Ctx) Check(extra *Term, timeout time.Duration, want []*Term) (SatResult, map[*Term]string) {
+	if d := os.Getenv("GOSYM_DUMP"); d != "" {
+		t0 := time.Now()
+		defer func() {
+			if el := time.Since(t0); el > 2*time.Second {
+				dumpSeq++
+				os.WriteFile(fmt.Sprintf("%s/q%d_%dms.smt2", d, dumpSeq, el.Milliseconds()), []byte(c.Dump(extra)), 0o644)
+			}
+		}()
+	}
 	if extra != nil {
 		if extra.IsFalse() {
 			return Unsat, nil
@@ -228,9 +238,15 @@ func (c *Ctx) Check(extra *Term, timeout time.Duration, want []*Term) (SatResult
 		r, vals, _ := c.race([]string{"z3", "cvc5-int", "cvc5"}, extra, timeout, want)
 		return r, vals
 	}
-	r, vals := c.mainCheck(extra, timeout, want)
+	// The incremental session answers the many easy queries in milliseconds; anything it cannot
+	// decide quickly goes to one-shot processes (full preprocessing), raced across back ends.
+	quick := 1500 * time.Millisecond
+	if quick > timeout {
+		quick = timeout
+	}
+	r, vals := c.mainCheck(extra, quick, want)
 	if r == Unknown {
-		r, vals, _ = c.race([]string{"cvc5", "z3-new"}, extra, timeout, want)
+		r, vals, _ = c.race([]string{"z3", "cvc5-int", "cvc5"}, extra, timeout, want)
 	}
 	if r != Unknown {
 		c.nDefinite++
@@ -264,3 +280,5 @@ func (c *Ctx) Dump(extra *Term) string {
 type engineError struct{ msg string }
 
 func (e engineError) Error() string { return e.msg }
+
+var dumpSeq int
